@@ -301,4 +301,4 @@ def main(tier, seed, replay=None):
 
         c08.real_gateways(ck, tier, only=("via",))
     ck.cov["traces_validated_against_impl"] = ck.cov.get("proxy_cases", 0)
-    return ck.finish(rule="(A) generated frame streams (payloads 0..5000 bytes over all byte values, extreme ids and types) behind the bootstrap byte, split into io-channel items as the forwarder does, at random cut points, or one byte per item, a quarter of them truncated at a random byte: the real ChannelFileRead/ProxyIO.read/Message.from_io vs the extracted model; (B) 14 transcript programs (typed echo of generated values, payloads up to 300 kB quick / 4 MB thorough, remote error, sub-channels, callbacks, stdout noise, module/function exec, status) on popen//python=, popen//via, popen//via//python=, socket//installvia x remote execution models vs direct popen; (C) kill / wait / exit through the proxy vs direct. distinct = (stream shape) resp. (transport, execmodel, program seed).")
+    return ck.finish(rule="(A) generated frame streams (payloads 0..5000 bytes over all byte values, extreme ids and types) behind the bootstrap byte, split into io-channel items as the forwarder does, at random cut points, or one byte per item, a quarter of them truncated at a random byte: the real ChannelFileRead/ProxyIO.read/Message.from_io vs the extracted model; (B) 15 transcript programs (Gateway._rinfo, typed echo of generated values, payloads up to 300 kB quick / 4 MB thorough, remote error, sub-channels, callbacks, stdout noise, module/function exec, status) on popen//python=, popen//via, popen//via//python=, socket//installvia x remote execution models vs direct popen; (C) kill / wait / exit through the proxy vs direct. distinct = (stream shape) resp. (transport, execmodel, program seed).")
